@@ -279,6 +279,11 @@ def run(ctx: Ctx, rep: Report, tier: str):
     _alias10(rep, ["C05.V2", "C05.V1", "C05.V3", "C05.V4", "C05.V5", "C05.V6", "C05.V7", "C05.V8", "C05.V9"], "C10.T14", "a transient fault while the application's resolver reads a handle aborts the step "
              "(CloudTemporaryError is re-raised before the catch-all of __safe_call_resolver, C05.V2): it is reported and retried, not taken for a broken resolver", 1,
              lambda: _C05(ctx, rep).run(), keep=lambda i: i.rule == "C05.V2" and i.key == "resolver|temporary-propagates")
+    from rules.common import no_late_bound_loop_variable
+    from rules.decisions import DECISION_FUNCTIONS as _DF
+    rep.rule("C10.T15", "each side recovers through its own hooks: no closure created in a loop / comprehension and kept (reauth=..., a callback) reads the loop variable when it is "
+             "called (late binding gives every copy the last side)", 100)
+    section(rep, lambda: no_late_bound_loop_variable(ctx, rep, "C10.T15", _DF))
     from rules.decisions import decision_table, table_sites
     rep.rule("C10.DT", "decision table (rules/decisions.json) of the step frames of the sync and event managers: punt, backoff, reconnect, notification and commit per failure kind: for every function and every action shape (an impure call with the parameters it passes, a store to an "
              "attribute or item, a delete, a returned constant, a yield, a raise) the set of states - over the function's guard atoms - in which the action is taken "
